@@ -336,6 +336,41 @@ def op_select_policy(seed, variant, tmp):
     return None if plate is None else int(plate.plate_id)
 
 
+def op_select_defaults(seed, variant, tmp):
+    """select_next_plate called the shortest way (no batch list, no policy): same inputs, same generator -> same plate, however
+    often it has been called before in this process"""
+    screen = input_screen(1)
+    un = [int(p.plate_id) for p in screen.plates if not p.is_observed]
+    h = ChunkedScoresHolder(len(un))
+    for i, p in enumerate(un):
+        h.add_score(p, float((i * 5 + variant) % 4))
+    out = []
+    for _ in range(2):
+        plate = select_next_plate(h, screen, None, rng=np.random.default_rng(seed))
+        out.append(None if plate is None else int(plate.plate_id))
+    return tuple(out)
+
+
+def cli_prepare_zero_plates(seed, variant, tmp):
+    """prepare_retrospective_simulation on a screen most of whose plates hold only zeros (a first plate drawn among them is
+    refused by reveal_plates): whatever the command does then, it does the same for the same --seed"""
+    rows = []
+    for p in range(6):
+        for w in range(2):
+            zero = p not in (1 + variant % 2, 4)
+            rows.append((f"s{p % 2}", f"g{p}", (("a", 1.0 + w), ("b", 1.0 + (p % 3))), 0.0 if zero else 0.2 + 0.1 * p + 0.05 * w, True))
+    a, tr, te = (os.path.join(tmp, x) for x in ("inz.h5", "trz.h5", "tez.h5"))
+    make_screen(rows, control="").save_h5(a)
+    for f in (tr, te):
+        if os.path.exists(f):
+            os.remove(f)
+    try:
+        run_cli("prepare_retrospective_simulation", ["--data", a, "--training-output", tr, "--test-output", te, "--holdout-fraction", "0.5", "--seed", seed])
+    except ValueError as exc:
+        return ("refused", str(exc)[:60])
+    return (_snap(Screen.load_h5(tr)), _snap(Screen.load_h5(te)))
+
+
 def op_sample_model(which, burnin=1):
     def run(seed, variant, tmp):
         screen = input_screen(variant, all_observed=True)
@@ -477,6 +512,8 @@ def operations(tier):
     ops["score:random"] = op_random_scorer
     ops["score:dbal-subsample"] = op_dbal_subsample
     ops["select:k-per-sample"] = op_select_policy
+    ops["select:defaults-twice"] = op_select_defaults
+    ops["cli:prepare_retrospective_simulation:zero-plates"] = cli_prepare_zero_plates
     ops["sample:SparseDrugCombo"] = op_sample_model("combo")
     ops["sample:SparseDrugComboInteraction"] = op_sample_model("interaction")
     # edge of the schedule: no burn-in at all (the seeded stream must reach the model just the same)
